@@ -23,6 +23,12 @@ structure NInv (size filled : Nat) (sel : Nat → Bool) (L k : Nat) (rs : Ranges
   agree : ∀ c, startOf k L ≤ c → c < endOf k L → sel c = Spec.selected size rs c
   ex : startOf k L < filled
 
+theorem lq_zero (L k : Nat) (rs : Ranges) :
+    lq 0 L k rs = (splitInner rs (startOf k L) (midOf k L)).1 := rfl
+
+theorem rq_zero (L k : Nat) (rs : Ranges) :
+    rq 0 L k rs = (splitInner rs (startOf k L) (midOf k L)).2 := rfl
+
 section
 variable {size filled : Nat} {sel : Nat → Bool}
 
@@ -46,10 +52,11 @@ theorem NInv.left {L k : Nat} {rs : Ranges}
     NInv size filled sel L (2 * k) (lq 0 (L + 1) k rs) := by
   have hsm := startOf_lt_midOf k (L + 1)
   refine ⟨?_, ?_, ?_⟩
-  · rw [startOf_left, endOf_left]; exact h.q.left (by omega)
+  · rw [startOf_left, endOf_left, lq_zero]
+    exact h.q.left (m := midOf k (L + 1)) (by omega)
   · intro c h1 h2
     rw [startOf_left] at h1; rw [endOf_left] at h2
-    rw [h.agree c h1 (Nat.lt_trans h2 (midOf_lt_endOf k (L + 1)))]
+    rw [h.agree c h1 (Nat.lt_trans h2 (midOf_lt_endOf k (L + 1))), lq_zero]
     exact (selected_left h.q.wf h1 h2 hm).symm
   · rw [startOf_left]; exact h.ex
 
@@ -59,10 +66,11 @@ theorem NInv.right (g : Geo size 0 filled) {L k : Nat} {rs : Ranges}
   have hsm := startOf_lt_midOf k (L + 1)
   have hme := midOf_lt_endOf k (L + 1)
   refine ⟨?_, ?_, g.right_exists hlt⟩
-  · rw [startOf_right, endOf_right]; exact h.q.right (by omega)
+  · rw [startOf_right, endOf_right, rq_zero]
+    exact h.q.right (m := midOf k (L + 1)) (by omega)
   · intro c h1 h2
     rw [startOf_right] at h1; rw [endOf_right] at h2
-    rw [h.agree c (by omega) h2]
+    rw [h.agree c (by omega) h2, rq_zero]
     exact (selected_right h.q.wf h1).symm
 
 /-- a non-empty sub-query selects a chunk of the node -/
@@ -191,11 +199,14 @@ theorem sel_left_chunk {k : Nat} {rs : Ranges}
   have e1 : startOf k 0 = 2 * k := by rw [startOf_eq]; simp
   have e2 : midOf k 0 = 2 * k + 1 := by rw [midOf_eq]; simp
   have e3 : endOf k 0 = 2 * k + 2 := by rw [endOf_eq]; simp
-  have hq : QInv d.length (lq 0 0 k rs) (startOf k 0) (midOf k 0) := h.q.left (by omega)
-  have hag : sel (2 * k) = Spec.selected d.length (lq 0 0 k rs) (2 * k) := by
+  rw [lq_zero]
+  have hq : QInv d.length (splitInner rs (startOf k 0) (midOf k 0)).1 (startOf k 0) (midOf k 0) :=
+    h.q.left (m := midOf k 0) (by omega)
+  have hag : sel (2 * k)
+      = Spec.selected d.length (splitInner rs (startOf k 0) (midOf k 0)).1 (2 * k) := by
     rw [h.agree (2 * k) (by omega) (by omega)]
     exact (selected_left h.q.wf (by omega) (by omega) hm).symm
-  by_cases hl : lq 0 0 k rs = []
+  by_cases hl : (splitInner rs (startOf k 0) (midOf k 0)).1 = []
   · rw [hag, hl, selected_nil]; rfl
   · obtain ⟨c, h1, h2, h3⟩ := hq.witness hl (by omega) (by omega)
     have : c = 2 * k := by omega
@@ -208,11 +219,14 @@ theorem sel_right_chunk {k : Nat} {rs : Ranges}
   have e1 : startOf k 0 = 2 * k := by rw [startOf_eq]; simp
   have e2 : midOf k 0 = 2 * k + 1 := by rw [midOf_eq]; simp
   have e3 : endOf k 0 = 2 * k + 2 := by rw [endOf_eq]; simp
-  have hq : QInv d.length (rq 0 0 k rs) (midOf k 0) (endOf k 0) := h.q.right (by omega)
-  have hag : sel (2 * k + 1) = Spec.selected d.length (rq 0 0 k rs) (2 * k + 1) := by
+  rw [rq_zero]
+  have hq : QInv d.length (splitInner rs (startOf k 0) (midOf k 0)).2 (midOf k 0) (endOf k 0) :=
+    h.q.right (m := midOf k 0) (by omega)
+  have hag : sel (2 * k + 1)
+      = Spec.selected d.length (splitInner rs (startOf k 0) (midOf k 0)).2 (2 * k + 1) := by
     rw [h.agree (2 * k + 1) (by omega) (by omega)]
     exact (selected_right h.q.wf (by omega)).symm
-  by_cases hl : rq 0 0 k rs = []
+  by_cases hl : (splitInner rs (startOf k 0) (midOf k 0)).2 = []
   · rw [hag, hl, selected_nil]; rfl
   · obtain ⟨c, h1, h2, h3⟩ := hq.witness hl (by omega) (by omega)
     have : c = 2 * k + 1 := by omega
